@@ -186,6 +186,7 @@ class Builder:
         self.t = self.L['ExperimentTopology']()
         self.nodes, self.comps, self.subs, self.nns, self.ports, self.svcs, self.sps = {}, {}, {}, {}, {}, {}, {}
         self.log = []
+        self.refusals = []
 
     def get(self, d, k):
         k = tuple(k) if isinstance(k, list) else k
@@ -273,17 +274,27 @@ class Builder:
             ifs = [self.iface(r) for r in refs]
             kw = {} if site is None else {'site': site}
             if via == 'ctor':
-                self.svcs[name] = t.add_network_service(name=name, nstype=L['ServiceType'][stype], interfaces=ifs, **kw)
+                self.svcs[name] = self.guarded(lambda: t.add_network_service(
+                    name=name, nstype=L['ServiceType'][stype], interfaces=ifs, **kw), 'constructor ' + stype)
             else:
                 s = t.add_network_service(name=name, nstype=L['ServiceType'][stype], **kw)
                 self.svcs[name] = s
                 for i in ifs:
-                    s.connect_interface(i)
+                    self.guarded(lambda: s.connect_interface(i), 'connect_interface ' + stype)
+        elif k == 'connect':
+            _, name, ref = op
+            s = self.get(self.svcs, name)
+            i = self.iface(ref)
+            self.guarded(lambda: s.connect_interface(i), 'connect_interface')
+        elif k == 'disconnect':
+            _, name, ref = op
+            self.get(self.svcs, name).disconnect_interface(self.iface(ref))
         elif k == 'mirror':
             _, name, from_name, ref, site = op
             kw = {} if site is None else {'site': site}
-            self.svcs[name] = t.add_port_mirror_service(name=name, from_interface_name=from_name,
-                                                        to_interface=self.iface(ref), **kw)
+            to_if = self.iface(ref)
+            self.svcs[name] = self.guarded(lambda: t.add_port_mirror_service(
+                name=name, from_interface_name=from_name, to_interface=to_if, **kw), 'constructor PortMirror')
         elif k == 'sprop':
             _, name, prop, on = op
             s = self.get(self.svcs, name)
@@ -305,6 +316,18 @@ class Builder:
             self.get(self.svcs, a).peer(self.get(self.svcs, b))
         else:
             raise Skip('unknown op ' + k)
+
+    def guarded(self, fn, label):
+        """run a connecting call; when it is REFUSED (raises) the slice must be exactly what it was before"""
+        before, _ = extract(self.t)
+        try:
+            return fn()
+        except Exception as e:
+            after, _ = extract(self.t)
+            self.refusals.append({'call': label, 'exception': type(e).__name__, 'unchanged': before == after,
+                                  'before': before if before != after else None,
+                                  'after': after if before != after else None})
+            raise
 
     def build(self, ops):
         for n, op in enumerate(ops):
@@ -365,43 +388,55 @@ def extract(t):
     return {'nodes': nodes, 'services': services}, names
 
 
+def split_phases(ops):
+    """['validate'] markers split a recipe into phases; every phase ends with a validation"""
+    phases, cur = [], []
+    for op in ops:
+        if op[0] == 'validate':
+            phases.append(cur)
+            cur = []
+        else:
+            cur.append(op)
+    phases.append(cur)
+    return phases
+
+
 def run_recipe(ops):
-    """-> observation dict (JSON-able)"""
+    """-> observation dict (JSON-able).  The recipe is executed phase by phase on ONE topology object; after each
+    phase the abstract slice is extracted afresh, validate() is called and the sites are read; at the end one more
+    extraction + validation of the slice as the last validation left it."""
     buf = io.StringIO()
     b = None
     try:
         with contextlib.redirect_stdout(buf):
             b = Builder()
-            t = b.build(ops)
-            absl, names = extract(t)
-            try:
-                t.validate()
-                res = 'Ok'
-            except Exception as e:
-                res = type(e).__name__
-            def sites_now():
+            phases = []
+
+            def checkpoint():
+                absl, names = extract(b.t)
+                try:
+                    b.t.validate()
+                    res = 'Ok'
+                except Exception as e:
+                    res = type(e).__name__
                 out = []
-                ns2 = t.network_services
+                ns2 = b.t.network_services
                 for name in names:
                     s = ns2.get(name)
                     out.append((s.site if s.site else None) if s is not None else '?missing')
-                return out, list(ns2.keys())
-            after, keys = sites_now()
-            if keys != names:
-                res = 'HARNESS:service-list-changed'
-            # a second validation of the (now site-carrying) slice
-            res2, after2 = None, None
-            if res == 'Ok':
-                try:
-                    t.validate()
-                    res2 = 'Ok'
-                except Exception as e:
-                    res2 = type(e).__name__
-                after2, _ = sites_now()
-        return {'abs': absl, 'res': res, 'sites': after, 'build': b.log, 'res2': res2, 'sites2': after2}
+                if list(ns2.keys()) != names:
+                    res = 'HARNESS:service-list-changed'
+                phases.append({'abs': absl, 'res': res, 'sites': out})
+            for ph in split_phases(ops):
+                b.build(ph)
+                checkpoint()
+            checkpoint()          # validating again what the last validation left
+        last = phases[-2]
+        return {'abs': last['abs'], 'res': last['res'], 'sites': last['sites'], 'build': b.log, 'phases': phases,
+                'refusals': b.refusals}
     except Exception as e:     # the extraction itself failed: reported as a harness problem, never hidden
         return {'abs': {'nodes': [], 'services': []}, 'res': 'HARNESS:' + type(e).__name__ + ':' + str(e)[:200],
-                'sites': [], 'build': b.log if b else []}
+                'sites': [], 'build': b.log if b else [], 'phases': [], 'refusals': []}
     finally:
         if b:
             b.close()
@@ -464,6 +499,8 @@ class World:
         self.ops = []
         self.free = []      # (ref, kind, site)
         self.n = 0
+        self.svc_refs = {}  # service name -> interface refs it was given
+        self.svc_type = {}
 
     def name(self, p):
         self.n += 1
@@ -554,6 +591,8 @@ def gen_service(w, stype, k, placement, kinds, declared, props, via, name=None):
         if f is not None:
             refs.append(f[0])
     name = name or w.name('svc')
+    w.svc_refs[name] = list(refs)
+    w.svc_type[name] = stype
     if stype == 'PortMirror' and 'mirror_api' in props and refs:
         w.ops.append(['mirror', name, 'port0', refs[0], declared])
         for r in refs[1:]:
@@ -657,7 +696,86 @@ def random_case(rng, size):
     elif svcnames and r < 0.19:
         # a late property change on an existing service
         w.ops.append(['sprop', rng.choice(svcnames)[0], 'site', rng.choice([None] + SITES[:3])])
+    # later connects on an existing service (also pairs the guardrail must refuse at once)
+    if svcnames and rng.random() < 0.2:
+        connect_step(w, rng, sites)
+    # sessions: validate, change the slice, validate again (each validation is judged on the slice as it then is)
+    if svcnames and rng.random() < 0.35:
+        for _ in range(rng.choice([1, 1, 2])):
+            w.ops.append(['validate'])
+            for _ in range(rng.choice([1, 1, 2, 3])):
+                mutate_step(w, rng, sites)
     return w.ops
+
+
+def owner_node(ref):
+    return ref[1]
+
+
+def connect_step(w, rng, sites):
+    name = rng.choice(sorted(w.svc_refs))
+    stype = w.svc_type[name]
+    if stype == 'L2PTP' and rng.random() < 0.6:
+        kind = 'SharedPort'           # the guardrail pair
+    else:
+        kind = rng.choice(['DedicatedPort', 'SharedPort', 'FacilityPort', 'SubInterface', 'DedicatedPort'])
+    site = rng.choice(sites)
+    f = w.take(kind=[kind], site=site)
+    if f is None:
+        ensure(w, kind, site)
+        f = w.take(kind=[kind], site=site)
+    if f is not None:
+        w.ops.append(['connect', name, f[0]])
+        w.svc_refs[name].append(f[0])
+
+
+def mutate_step(w, rng, sites):
+    names = sorted(w.svc_refs)
+    r = rng.random()
+    used = [ref for n in names for ref in w.svc_refs[n]]
+    if r < 0.45 and used:
+        # move a node that owns a connected interface to another (or the same, or no) site
+        ref = rng.choice(used)
+        w.ops.append(['nprop', owner_node(ref), 'site', rng.choice(SITES[:3] + [rng.choice(sites)] + ([None] if rng.random() < 0.15 else []))])
+    elif r < 0.6:
+        connect_step(w, rng, sites)
+    elif r < 0.72:
+        name = rng.choice(names)
+        if w.svc_refs[name]:
+            ref = rng.choice(w.svc_refs[name])
+            w.svc_refs[name].remove(ref)
+            w.ops.append(['disconnect', name, ref])
+    elif r < 0.9:
+        name = rng.choice(names)
+        prop = rng.choice(SVC_PROPS + ['site', 'site'])
+        if prop == 'site':
+            w.ops.append(['sprop', name, 'site', rng.choice([None] + SITES[:3])])
+        else:
+            w.ops.append(['sprop', name, prop, rng.random() < 0.6])
+    else:
+        nds = [op[1] for op in w.ops if op[0] in ('node', 'switch', 'facility')]
+        if nds:
+            w.ops.append(['nprop', rng.choice(nds), rng.choice(['image', 'management_ip']), rng.random() < 0.5])
+
+
+def session_cases(rng, n):
+    """the two-site / one-site scenarios around a node that moves between validations"""
+    out = []
+    for _ in range(n):
+        w = World(rng)
+        stype = rng.choice(['L2STS', 'L2Bridge', 'L2PTP', 'FABNetv4', 'L2Path', 'PortMirror', 'L2Multisite', 'P4', 'FABNetv6Ext'])
+        k = rng.choice([1, 2, 2, 3])
+        placement = [rng.choice(SITES[:3]) for _ in range(k)]
+        name = gen_service(w, stype, k, placement, ['DedicatedPort'] * k, rng.choice([None, None, placement[0]]),
+                           ['mirror_api'] if stype == 'PortMirror' else [], rng.choice(['ctor', 'connect']))
+        for _ in range(rng.choice([1, 2, 3])):
+            w.ops.append(['validate'])
+            if w.svc_refs[name] and rng.random() < 0.8:
+                w.ops.append(['nprop', owner_node(rng.choice(w.svc_refs[name])), 'site', rng.choice(SITES[:3])])
+            else:
+                mutate_step(w, rng, SITES[:3])
+        out.append(w.ops)
+    return out
 
 
 def product_cases(rng, tier):
@@ -709,9 +827,9 @@ class Slices(Stream):
     name = 'slices'
     header = ('From Coq Require Import List ZArith NArith String.\nImport ListNotations.\n'
               'From FIM Require Import Base.C10Types Model.Validate10.\n')
-    case_type = 'slice * (result * list osite)'
-    check_fn = 'check_slice_repaired' if REPAIRED else 'check_slice'
-    shard = 250
+    case_type = 'list (slice * (result * list osite))'
+    check_fn = 'check_phases_repaired' if REPAIRED else 'check_phases'
+    shard = 150
     rule = ('build recipes (nodes of all 6 types with NIC/GPU components, facilities, switches, sub-interfaces, custom '
             'ports of every InterfaceType, services of all 15 types with 0..4 interfaces over 1..4 sites, declared '
             'site none/matching/mismatching, each constrained property set or not, bare/multi-peer ServicePorts, '
@@ -739,6 +857,7 @@ class Slices(Stream):
         cases = product_cases(rng, tier)
         for i in range(n):
             cases.append(random_case(rng, 1 if i % 25 else 0))
+        cases += session_cases(rng, 120 if tier == 'quick' else 3000)
         rng.shuffle(cases)      # so that a time-limited prefix is a fair sample of the whole plan
         self.precompute(self.corpus(), None)
         budget = float(os.environ.get('VERIF_C10_BUDGET', '') or (80 if tier == 'quick' else 540))
@@ -776,26 +895,51 @@ class Slices(Stream):
         return run_recipe(case)
 
     def to_coq(self, case, o):
-        res = RES.get(o['res'], 'Err EUnmodelled')
-        sites = clist([c_site(s) if s in SITES or s is None else 'None' for s in o['sites']])
-        return '(%s, (%s, %s))' % (c_slice(o['abs']), res, sites)
+        out = []
+        for ph in o['phases']:
+            res = RES.get(ph['res'], 'Err EUnmodelled')
+            sites = clist([c_site(s) if s in SITES or s is None else 'None' for s in ph['sites']])
+            out.append('(%s, (%s, %s))' % (c_slice(ph['abs']), res, sites))
+        return clist(out)
+
+    def oracle1(self, ph):
+        """one validation against the pinned tables, on the slice as it was at that moment"""
+        why = allowed(ph['abs'])
+        if ph['res'] == 'Ok' and why:
+            return 'accepted-not-allowed: ' + ', '.join(why)
+        if ph['res'] != 'Ok' and not why:
+            return 'rejected-but-allowed: validate() raised %s on a slice the pinned tables allow' % ph['res']
+        if ph['res'] == 'Ok':
+            exp = expected_sites(ph['abs'])
+            if exp != ph['sites']:
+                return 'site-not-recorded: expected %r, services carry %r' % (exp, ph['sites'])
+        elif ph['res'] != 'TopologyException' and well_formed(ph['abs']):
+            return 'wrong-exception: validate() raised %s (not TopologyException) on a well-formed slice' % ph['res']
+        return None
 
     def oracle(self, case, o):
         if o['res'].startswith('HARNESS'):
             return 'harness problem: ' + o['res']
-        why = allowed(o['abs'])
-        if o['res'] == 'Ok' and why:
-            return 'accepted-not-allowed: ' + ', '.join(why)
-        if o['res'] != 'Ok' and not why:
-            return 'rejected-but-allowed: validate() raised %s on a slice the pinned tables allow' % o['res']
-        if o['res'] == 'Ok':
-            exp = expected_sites(o['abs'])
-            if exp != o['sites']:
-                return 'site-not-recorded: expected %r, services carry %r' % (exp, o['sites'])
-            if o.get('res2') is not None and (o['res2'] != 'Ok' or o['sites2'] != o['sites']):
-                return 'not-idempotent: a second validate() gave %s with sites %r after %r' % (o['res2'], o['sites2'], o['sites'])
-        elif o['res'] != 'TopologyException' and well_formed(o['abs']):
-            return 'wrong-exception: validate() raised %s (not TopologyException) on a well-formed slice' % o['res']
+        for r in o.get('refusals', []):
+            if not r['unchanged']:
+                return ('refusal-changed-slice: %s raised %s but left the slice modified (before %s / after %s)'
+                        % (r['call'], r['exception'], json.dumps(r['before'])[:400], json.dumps(r['after'])[:400]))
+        phases = o['phases']
+        for k, ph in enumerate(phases):
+            if ph['res'].startswith('HARNESS'):
+                return 'harness problem: ' + ph['res']
+            why = self.oracle1(ph)
+            if why:
+                return why if k == len(phases) - 2 or len(phases) == 2 else 'validation #%d of the session: %s' % (k + 1, why)
+        # validating again: same verdict, same sites, and the first validation changed nothing but the sites
+        a, b2 = phases[-2], phases[-1]
+        if b2['res'] != a['res'] or b2['sites'] != a['sites']:
+            return 'not-stable: a second validate() gave %s with sites %r after %s with %r' % (
+                b2['res'], b2['sites'], a['res'], a['sites'])
+        exp_abs = {'nodes': a['abs']['nodes'],
+                   'services': [[st, sa, props, ifs] for (st, _, props, ifs), sa in zip(a['abs']['services'], a['sites'])]}
+        if b2['abs'] != exp_abs:
+            return 'validate-changed-slice: validate() changed more than the recorded sites'
         return None
 
     def known_signature(self, case, o, why):
@@ -804,16 +948,25 @@ class Slices(Stream):
     def key(self, case, o):
         if not o['abs']['services']:
             return None
-        return stable_hash([o['abs'], o['res']])
+        return stable_hash([[ph['abs'], ph['res']] for ph in o['phases'][:-1]])
 
     def describe(self, case, o):
-        return {'case': case, 'impl': {'abstract_slice': o['abs'], 'validate': o['res'], 'sites_after': o['sites']}}
+        return {'case': case, 'impl': {'validations': [{'abstract_slice': ph['abs'], 'validate': ph['res'],
+                                                        'sites_after': ph['sites']} for ph in o['phases']],
+                                       'refused_connects': o.get('refusals', [])}}
 
     def histogram(self, cases, obs):
         h = {'accepted': 0, 'rejected_TopologyException': 0, 'rejected_other': 0, 'by_service_type': {},
              'interfaces_per_service': {}, 'rejection_reasons': {}, 'site_inferred': 0, 'build_refusals': 0,
-             'accepted_but_pinned_tables_disallow': 0}
+             'accepted_but_pinned_tables_disallow': 0, 'sessions_with_2plus_validations': 0, 'validations': 0,
+             'verdict_changed_within_session': 0, 'refused_connects': 0}
         for c, o in zip(cases, obs):
+            h['validations'] += len(o['phases'])
+            if len(o['phases']) > 2:
+                h['sessions_with_2plus_validations'] += 1
+                if len(set(ph['res'] == 'Ok' for ph in o['phases'])) > 1:
+                    h['verdict_changed_within_session'] += 1
+            h['refused_connects'] += len(o.get('refusals', []))
             if o['res'] == 'Ok':
                 h['accepted'] += 1
             elif o['res'] == 'TopologyException':
@@ -894,8 +1047,9 @@ class Connect(Stream):
               'From FIM Require Import Base.C10Types Model.Validate10.\n')
     case_type = 'string * string * bool * bool'
     check_fn = 'check_connect_repaired' if REPAIRED else 'check_connect'
-    rule = ('exhaustive: 15 service types x 9 interface types x {constructor interfaces=[..], connect_interface()}; '
-            'observed: is the connection refused at once (TopologyException); distinct by case')
+    rule = ('exhaustive: 15 service types x 9 interface types x {constructor interfaces=[..], connect_interface() on an '
+            'existing (valid where possible) service}; observed: is the connection refused at once (TopologyException), '
+            'and after a refusal are the abstract slice and the validate() verdict what they were before; distinct by case')
 
     def __init__(self):
         self.cache = {}
@@ -921,23 +1075,47 @@ class Connect(Stream):
     def observe1(self, case):
         st, it, via = case
         w = World(__import__('random').Random(0))
+        # a service that is valid before the connection where the type allows it: dedicated ports on A (and B)
+        two = PIN_SERVICES[st][3] != 1 and st != 'PortMirror'
+        prep = []
+        for site in (['A', 'B'] if two else ['A']):
+            ensure(w, 'DedicatedPort', site)
+            prep.append(w.take(kind=['DedicatedPort'], site=site)[0])
+        if PIN_SERVICES[st][2] == 1:       # at most one interface: start empty
+            prep = []
         if it in ('SharedPort', 'DedicatedPort', 'FacilityPort', 'SubInterface'):
             ensure(w, it, 'A')
         else:
             w.custom('A', it)
-        f = w.take(kind=[it])
-        ops = w.ops + [['svc', 'svc1', st, None, [f[0]], via]]
+        f = w.take(kind=[it], site='A')
         buf = io.StringIO()
         b = None
+
+        def verdict(t):
+            try:
+                t.validate()
+                return 'Ok'
+            except Exception as e:
+                return type(e).__name__
         try:
             with contextlib.redirect_stdout(buf):
                 b = Builder()
-                t = b.build(ops)
-                absl, _ = extract(t)
-            kinds = [i[2][0][0] for s in absl['services'] if s[0] == st for i in s[3]
+                t = b.build(w.ops)
+                if via == 'connect':
+                    b.build([['svc', 'svc1', st, None, prep, 'connect']])
+                res_b = verdict(t)                      # (records sites: the snapshot is taken afterwards)
+                abs_b, _ = extract(t)
+                if via == 'connect':
+                    b.build([['connect', 'svc1', f[0]]])
+                else:
+                    b.build([['svc', 'svc1', st, None, prep + [f[0]], 'ctor']])
+                abs_a, _ = extract(t)
+                res_a = verdict(t)
+            kinds = [i[2][0][0] for s in abs_a['services'] if s[0] == st for i in s[3]
                      if i[0] == 'ServicePort' and i[2] and len(i[2]) == 1]
             return {'build': b.log, 'last': b.log[-1], 'prep_ok': all(x == 'ok' for x in b.log[:-1]),
-                    'connected_kinds': kinds}
+                    'connected_kinds': kinds, 'unchanged': abs_a == abs_b, 'verdict_before': res_b, 'verdict_after': res_a,
+                    'before': abs_b if abs_a != abs_b else None, 'after': abs_a if abs_a != abs_b else None}
         except Exception as e:
             return {'build': [], 'last': 'HARNESS:' + type(e).__name__ + str(e)[:100], 'prep_ok': False, 'connected_kinds': []}
         finally:
@@ -958,6 +1136,10 @@ class Connect(Stream):
             return 'not-refused-at-once: %s x %s via %s' % (st, it, 'connect_interface' if via == 'connect' else 'constructor')
         if refused and not must:
             return 'refused-without-reason: %s x %s via %s' % (st, it, via)
+        if refused and (not o['unchanged'] or o['verdict_before'] != o['verdict_after']):
+            return ('refusal-changed-slice: %s x %s via %s was refused but the slice is not what it was (validate before: %s, '
+                    'after: %s; slice before %s / after %s)' % (st, it, via, o['verdict_before'], o['verdict_after'],
+                                                               json.dumps(o['before'])[:300], json.dumps(o['after'])[:300]))
         if not refused and it not in o['connected_kinds'] and st != 'OVS':
             return 'connection not made: %s x %s via %s' % (st, it, via)
         return None
